@@ -9,6 +9,7 @@ CASE_TIMEOUT = 300  # seconds per pool task (the unchanged tree needs a small fr
 
 import copy
 import itertools
+import os
 
 from .. import ref
 from ..lab import hi, make_odb, put_raw
@@ -244,8 +245,24 @@ def public_one(odb, infos, a, o, t, pol, alg="md5"):
     rt = {k: x for k, x in zip(keys, t) if x}
     expect, conflicts = ref.three_way(ra, ro, rt)
     viol = []
+    ours_info = infos[o]
+    if a is not None and alg == "md5" and set(ra) <= set(ro):
+        # "ours" is produced the way an application does it: load the ancestor, add / replace entries on that
+        # object, digest and store it - the stored ancestor (and what merge() loads for it) must be unaffected
+        from dvc_data.hashfile import load
+        from dvc_data.hashfile.hash_info import HashInfo
+
+        mine = load(odb, infos[a])
+        for k, x in ro.items():
+            if ra.get(k) != x:
+                mine.add(k, None, HashInfo("md5", H[x]))
+        mine.digest()
+        odb.add(mine.path, mine.fs, mine.oid, hardlink=False)
+        if mine.hash_info.value != infos[o].value:
+            viol.append(("listing-derived-from-loaded-ancestor-has-another-id", f"{mine.hash_info} vs {infos[o]}"))
+        ours_info = mine.hash_info
     try:
-        m = merge(odb, infos[a] if a is not None else None, infos[o], infos[t],
+        m = merge(odb, infos[a] if a is not None else None, ours_info, infos[t],
                   allowed=POLICIES[pol])
     except MergeError:
         return viol, "MergeError"
@@ -266,6 +283,23 @@ def public_one(odb, infos, a, o, t, pol, alg="md5"):
         viol.append(("merged-entries-named-by-another-algorithm", f"{names} in a {alg} store"))
     if m.hash_info is None or m.hash_info.value != m.oid:
         viol.append(("merged-hash-info-mismatch", repr(m.hash_info)))
+    if alg == "md5":
+        # another merge result is computed before this one is stored; storing and reloading it must still give
+        # this merge's entries
+        from dvc_data.hashfile.tree import Tree as _Tree
+
+        try:
+            merge(odb, None, infos[t], infos[t], allowed=POLICIES["all"])
+            merge(odb, infos[o], infos[o], infos[t], allowed=POLICIES["all"])
+        except MergeError:
+            pass
+        out = make_odb("base", odb.path + ".merged")   # (the session's store already holds every possible listing)
+        out.add(m.path, m.fs, m.oid, hardlink=False)
+        back = _Tree.load(out, m.hash_info)
+        got2 = {"/".join(k): oid.value for k, _m, oid in back}
+        if got2 != got:
+            viol.append(("stored-merge-result-reloads-as-another-listing", f"stored {got}, reloaded {got2}"))
+        os.unlink(out.oid_to_path(m.oid))
     return viol, "ok"
 
 
